@@ -492,6 +492,42 @@ func runCtor(c Ctor) (vk.Outcome, error) {
 				if pulled > k+1 {
 					return out, vk.Violf("not-lazy", "stream.Collect over FromIterator pulled %d items although its context ended at item %d", pulled, k)
 				}
+				// the same read by hand: calls with the ended context fail, and carrying on with a live one
+				// continues exactly where the stream was - whatever the iterator handed over is delivered
+				ctx3, cancel3 := sk.WithCancel(bg)
+				pulled = 0
+				it3 := iterFunc(func() (int, bool) {
+					if pulled >= len(c.Items) {
+						return 0, false
+					}
+					pulled++
+					if pulled == k {
+						cancel3()
+					}
+					return c.Items[pulled-1], true
+				})
+				s3 := stream.FromIterator[int](it3)
+				var seq []int
+				cur := ctx3
+				for n := 0; n < 2*len(c.Items)+4; n++ {
+					x, err := s3.Next(cur)
+					if err == stream.End {
+						break
+					}
+					if err != nil {
+						if cur == bg || err != context.Canceled {
+							return out, vk.Violf("wrong-error", "stream.FromIterator: Next returned %v", err)
+						}
+						cur = bg
+						continue
+					}
+					seq = append(seq, x)
+				}
+				cancel3()
+				s3.Close()
+				if !reflect.DeepEqual(seq, append([]int{}, c.Items...)) {
+					return out, vk.Violf("lost-on-expired-call", "stream.FromIterator over %v, context cancelled while item %d was being produced, then read on with a live context: yielded %v", c.Items, k, seq)
+				}
 			}
 		}
 		E := sk.NewSentinel("E")
